@@ -151,7 +151,10 @@ def render(rng, root):
 
 IDENTS = ["x", "y", "key", "model", "H", "values", "c", "p1", "p2", "tol", "keys", "E", "b"]
 METHODS = ["evaluateError", "dim", "equals", "f", "at", "insert", "operator()", "operator+",
-           "clone", "error", "linearize", "Create<T>"]
+           "clone", "error", "linearize", "Create<T>",
+           # names the generator binds under ANOTHER Python name (keywords get a `_`, ipython display names become
+           # `_repr_x_`): the documentation is still that of the C++ member; `in_` / `pass_` are different members
+           "in", "in_", "pass", "pass_", "is", "from", "lambda", "svg", "html", "png", "_repr_svg_"]
 CLASSES = ["gtsam::NoiseModelFactor", "gtsam::JacobianFactorQ", "Foo", "ns::Bar<double>",
            "MyTemplate<gtsam::Point2>", "gtsam::Values", "a.b", "a"]
 
